@@ -213,6 +213,34 @@ Proof.
     + apply N.ltb_ge in H4. right. lia.
 Qed.
 
+(* ---------- linearisable draws: what the freshness theorems assume of the generator ---------- *)
+Lemma atomic_fold sched : forall st,
+  atomic_only sched = true ->
+  (forall p, In p (map snd (ggot st)) -> (p < gnext st)%nat) -> NoDup (map snd (ggot st)) ->
+  let st' := fold_left gstep sched st in
+  (forall p, In p (map snd (ggot st')) -> (p < gnext st')%nat) /\ NoDup (map snd (ggot st')).
+Proof.
+  induction sched as [|e sched IH]; intros st Ha Hb Hn; cbn [fold_left]; [split; assumption|].
+  cbn [atomic_only forallb] in Ha. apply andb_true_iff in Ha. destruct Ha as [He Ha].
+  destruct e as [g|g|g]; try discriminate. apply IH; [exact Ha | |]; cbn [gstep ggot gnext map snd].
+  - intros p [<-|Hp]; [lia | apply Hb in Hp; lia].
+  - constructor; [intros Hi; apply Hb in Hi; lia | exact Hn].
+Qed.
+
+(* every interleaving of any number of goroutines whose draws are atomic yields pairwise distinct positions *)
+Theorem atomic_draws_distinct sched :
+  atomic_only sched = true -> NoDup (map snd (ggot (grun sched))).
+Proof.
+  intros Ha. apply (atomic_fold sched ginit Ha); cbn; [intros p [] | constructor].
+Qed.
+
+(* without atomicity two goroutines can obtain the same position: the generator must be linearisable *)
+Theorem nonatomic_draws_refuted :
+  exists sched g1 g2 p, g1 <> g2 /\ In (g1, p) (ggot (grun sched)) /\ In (g2, p) (ggot (grun sched)).
+Proof.
+  exists [ERead 0; ERead 1; EAdvance 0; EAdvance 1]%nat, 0%nat, 1%nat, 0%nat. cbn. repeat split; auto.
+Qed.
+
 (* ---------- the oracle ---------- *)
 Lemma memb_spec x l : memb x l = true <-> In x l.
 Proof.
@@ -234,19 +262,23 @@ Theorem check_C04_meaning c :
   (forall f, In f (c_files c) -> file_ok f = true) /\
   NoDup (all_nonces c) /\
   (forall n, In n (all_nonces c) -> length n = 16%nat /\ exists b, In b n /\ b <> 0%N) /\
-  (forall h, In h (c_hits c) -> h = (true, true)).
+  (forall h, In h (c_hits c) -> h = (true, true)) /\
+  (forall expected collected distinct dups, In (expected, collected, distinct, dups) (c_conc c) ->
+     (expected <= collected)%N /\ collected = distinct /\ dups = []).
 Proof.
-  unfold check_C04, layout_ok, nonces_ok, no_leak. rewrite !andb_true_iff.
-  intros [[Hl [Hn Hz]] Hh]. repeat split.
+  unfold check_C04, layout_ok, nonces_ok, no_leak, conc_ok. rewrite !andb_true_iff.
+  intros [[[Hl [Hn Hz]] Hh] Hc]. split; [|split; [|split; [|split]]].
   - apply forallb_forall. exact Hl.
   - apply nodupb_spec. exact Hn.
-  - rewrite forallb_forall in Hz. specialize (Hz _ H). unfold nonzero_nonce in Hz.
-    apply andb_true_iff in Hz. destruct Hz as [Hz _]. apply Nat.eqb_eq in Hz. exact Hz.
-  - rewrite forallb_forall in Hz. specialize (Hz _ H). unfold nonzero_nonce in Hz.
-    apply andb_true_iff in Hz. destruct Hz as [_ Hz]. apply existsb_exists in Hz. destruct Hz as [b [Hb Hz]].
-    exists b. split; [exact Hb|]. apply negb_true_iff, N.eqb_neq in Hz. exact Hz.
+  - intros n H. rewrite forallb_forall in Hz. specialize (Hz _ H). unfold nonzero_nonce in Hz.
+    apply andb_true_iff in Hz. destruct Hz as [Hz1 Hz2]. apply Nat.eqb_eq in Hz1. split; [exact Hz1|].
+    apply existsb_exists in Hz2. destruct Hz2 as [b [Hb Hz2]].
+    exists b. split; [exact Hb|]. apply negb_true_iff, N.eqb_neq in Hz2. exact Hz2.
   - intros h Hi. rewrite forallb_forall in Hh. specialize (Hh _ Hi). destruct h as [a b].
     cbn [fst snd] in Hh. apply andb_true_iff in Hh. destruct Hh as [-> ->]. reflexivity.
+  - intros expected collected distinct dups Hi. rewrite forallb_forall in Hc. specialize (Hc _ Hi). cbn in Hc.
+    apply andb_true_iff in Hc. destruct Hc as [Hc Hd]. apply andb_true_iff in Hc. destruct Hc as [H1 H2].
+    apply N.leb_le in H1. apply N.eqb_eq in H2. destruct dups; [|discriminate]. auto.
 Qed.
 
 Theorem file_ok_pack_meaning L hlen entries hok hn same :
@@ -268,9 +300,12 @@ Proof. repeat split. Qed.
 
 Example oracle_nonvacuous :
   check_case (mkcase [FPack 104 36 [(0%N, 32%N, true, repeat 1%N 16); (32%N, 32%N, true, repeat 2%N 16)] true (repeat 3%N 16) true;
-                      FSealed 40 true (repeat 4%N 16); FKey true 64 true (repeat 5%N 16)] [(true, true)] 1) = 0%nat /\
-  check_case (mkcase [FPack 105 36 [(0%N, 32%N, true, repeat 1%N 16); (32%N, 32%N, true, repeat 2%N 16)] true (repeat 3%N 16) true] [] 0) = 2%nat /\
-  check_case (mkcase [FSealed 40 true (repeat 4%N 16); FSealed 41 true (repeat 4%N 16)] [] 0) = 3%nat /\
-  check_case (mkcase [FSealed 40 true (repeat 0%N 16)] [] 0) = 3%nat /\
-  check_case (mkcase [FSealed 40 true (repeat 4%N 16)] [(false, false)] 0) = 4%nat.
+                      FSealed 40 true (repeat 4%N 16); FKey true 64 true (repeat 5%N 16)] [(true, true)] 1 []) = 0%nat /\
+  check_case (mkcase [FPack 105 36 [(0%N, 32%N, true, repeat 1%N 16); (32%N, 32%N, true, repeat 2%N 16)] true (repeat 3%N 16) true] [] 0 []) = 2%nat /\
+  check_case (mkcase [FSealed 40 true (repeat 4%N 16); FSealed 41 true (repeat 4%N 16)] [] 0 []) = 3%nat /\
+  check_case (mkcase [FSealed 40 true (repeat 0%N 16)] [] 0 []) = 3%nat /\
+  check_case (mkcase [FSealed 40 true (repeat 4%N 16)] [(false, false)] 0 []) = 4%nat /\
+  check_case (mkcase [] [] 0 [(10%N, 10%N, 10%N, [])]) = 0%nat /\
+  check_case (mkcase [] [] 0 [(10%N, 10%N, 9%N, [repeat 7%N 16])]) = 5%nat /\
+  check_case (mkcase [] [] 0 [(10%N, 8%N, 8%N, [])]) = 5%nat.
 Proof. repeat split. Qed.
